@@ -215,6 +215,14 @@ func analyse(ids []string, repo, cfg, tier string) (rs map[string]*rep.Report, e
 		for _, n := range eng.AliasNotes() {
 			r.Assumption("renamed identifier recognised by shape [" + cfg + "]: " + n)
 		}
+		if len(p.Seams) > 0 {
+			var ss []string
+			for g, f := range p.Seams {
+				ss = append(ss, g+" = "+f)
+			}
+			sort.Strings(ss)
+			r.Assumption("package-level function variables set once by the package initialiser and never assigned by non-test code are read as the function they hold [" + cfg + "]: " + strings.Join(ss, ", "))
+		}
 		r.Assumption("unexported, statically called, non-recursive functions that no rule names are analysed as part of their callers (inlined, depth <= 4) [" + cfg + "]: " + strings.Join(p.TransparentNames(), ", "))
 		func() {
 			defer func() {
